@@ -15,7 +15,19 @@ import ZConfig.loader
 
 from . import obs
 
-_STATE = {"obs": None, "depth": 0, "spans": [], "test": "", "start": 0, "nres": 0, "orig": {}}
+_STATE = {"obs": None, "depth": 0, "spans": [], "test": "", "start": 0, "nres": 0, "orig": {}, "before": None}
+
+
+def _describe(loader):
+    """The description of the application schema a configuration loader was made for (C13), or None."""
+    app = getattr(loader, "_zcv_app", None)
+    if app is None:
+        return None
+    try:
+        from . import scenario
+        return scenario.session_digest(app)
+    except Exception:
+        return None
 
 
 def _wrap(name):
@@ -28,6 +40,7 @@ def _wrap(name):
         outer = st["depth"] == 0
         if outer:
             st["start"], st["nres"] = len(o.events), len(o.resources)
+            st["before"] = _describe(self)
         st["depth"] += 1
         how = "returned"
         try:
@@ -40,7 +53,9 @@ def _wrap(name):
             if outer:
                 ev = o.events[st["start"]:]
                 res = o.resources[st["nres"]:]
+                after = _describe(self) if st["before"] is not None else None
                 st["spans"].append({"test": st["test"], "entry": "%s.%s" % (type(self).__name__, name), "ended": how,
+                                    "schema": None if after is None else {"before": st["before"], "after": after},
                                     "events": [[k, str(u)] for k, u in ev],
                                     "allclosed": all(r.closed for r in res), "resources": len(res)})
     wrapper.__name__ = name
@@ -53,6 +68,15 @@ def pytest_sessionstart(session):
     _STATE["obs"] = o
     for name in ("loadURL", "loadFile"):
         _wrap(name)
+    # which schema object a configuration loader was made for (loader.schema itself is swapped for a private copy
+    # while a load that uses %import is under way)
+    init = ZConfig.loader.ConfigLoader.__init__
+    _STATE["orig"]["__init__"] = init
+
+    def cl_init(self, schema, *a, **kw):
+        init(self, schema, *a, **kw)
+        self._zcv_app = schema
+    ZConfig.loader.ConfigLoader.__init__ = cl_init
 
 
 def pytest_runtest_setup(item):
@@ -64,7 +88,7 @@ def pytest_sessionfinish(session, exitstatus):
     o = _STATE["obs"]
     if o is not None:
         for name, orig in _STATE["orig"].items():
-            setattr(ZConfig.loader.BaseLoader, name, orig)
+            setattr(ZConfig.loader.ConfigLoader if name == "__init__" else ZConfig.loader.BaseLoader, name, orig)
         o.__exit__(None, None, None)
     out = os.environ.get("ZCV_SUITE_OUT")
     if out:
